@@ -1500,20 +1500,41 @@ NUMERIC_XFORM = re.compile(r"::(rem_euclid|div_euclid|abs|round|floor|ceil|trunc
 def rule_payload_verbatim(ctx, g, rid):
     """C01/C03: what a parser stores is the decoded payload itself — no arithmetic on the way from the record to the field"""
     from analysis import ctrl
-    ctx.rule(rid, "the element parsers store record payloads as decoded: no arithmetic (normalisation, scaling, rounding, sign change) is applied between a record's payload and the field it is stored in")
+    ctx.rule(rid, "the element parsers, and the conversion helpers they hand record payloads to, store payloads as decoded: no arithmetic (normalisation, scaling, rounding, re-referencing, sign change) is applied between a record's payload and the field it is stored in")
     F = ctx.F
-    n_fn = 0
+    # (function id) -> set of parameter indices that carry record payload; parser functions also see payload as the
+    # fields of a matched GdsRecord variant (`as Variant` in the access path)
+    tainted = {}
+    work = []
     for f in F.fns.values():
-        if not f.id.startswith("gds21::read::") or "GdsParser" not in f.short or f.kind == "Closure":
-            continue
+        if f.id.startswith("gds21::read::") and "GdsParser" in f.short and f.kind != "Closure" and f.body:
+            tainted[f.id] = set()
+            work.append(f.id)
+    n_fn = len(work)
+    results = {}
+    rounds = 0
+    while work and rounds < 400:
+        rounds += 1
+        fid = work.pop()
+        f = F.fns[fid]
         b = Body(f)
-        n_fn += 1
+        tp = tainted[fid]
 
-        def from_payload(ops):
+        def from_payload(ops, whole=False):
             for q in ctrl.slice_paths(b, ops):
                 if any(str(x).startswith("as ") for x in q[1]):
                     return True
+                if q[0][0] == "arg" and q[0][1] in tp and (whole or q[1] or b.locals[q[0][1]]["ty"].get("k") == "prim"):
+                    # content read out of a payload parameter (lengths and the indices computed from them have no field path)
+                    return True
             return False
+        def is_index(o):
+            """usize arithmetic is index / length arithmetic: GDSII payload values are i16 / i32 / f64 / bytes"""
+            q = op_place(o)
+            if q is not None and not q["p"]:
+                return b.locals[q["l"]]["ty"].get("s") == "usize"
+            c = op_const(o)
+            return bool(c) and isinstance(c.get("ty"), dict) and c["ty"].get("s") == "usize"
         hits = []
         for bi, blk in enumerate(b.blocks):
             if blk["cleanup"] or bi not in b.reachable:
@@ -1522,19 +1543,33 @@ def rule_payload_verbatim(ctx, g, rid):
                 if st["k"] != "assign":
                     continue
                 rv = st["rv"]
-                if rv["k"] == "bin" and rv["op"].replace("WithOverflow", "").replace("Unchecked", "") in ("Add", "Sub", "Mul", "Div", "Rem") and from_payload([rv["l"], rv["r"]]):
+                if rv["k"] == "bin" and rv["op"].replace("WithOverflow", "").replace("Unchecked", "") in ("Add", "Sub", "Mul", "Div", "Rem") and not is_index(rv["l"]) and from_payload([rv["l"], rv["r"]]):
                     hits.append((bi, rv["op"]))
                 if rv["k"] == "un" and rv["op"] == "Neg" and from_payload([rv["o"]]):
                     hits.append((bi, "Neg"))
             t = blk["term"]
-            if t["k"] == "call" and NUMERIC_XFORM.search(callee_name(t) or "") and from_payload(t["args"]):
+            if t["k"] != "call":
+                continue
+            if NUMERIC_XFORM.search(callee_name(t) or "") and from_payload(t["args"]):
                 hits.append((bi, (callee_name(t) or "").split("::")[-1]))
+            h = F.fns.get(callee_id(t))
+            if h is not None and h.body and h.id.startswith("gds21::") and h.kind != "Closure" and not h.derived:
+                ks = {k + 1 for k, a in enumerate(t["args"]) if from_payload([a], whole=True)}
+                if ks - tainted.get(h.id, set()) or (ks and h.id not in tainted):
+                    tainted[h.id] = tainted.get(h.id, set()) | ks
+                    work.append(h.id)
+        results[fid] = (f, b, hits)
+    n_help = 0
+    for fid, (f, b, hits) in sorted(results.items()):
+        is_parser = "GdsParser" in f.short
+        n_help += 0 if is_parser else 1
         if hits:
             key = "%s/arith" % f.short
-            ctx.violation(rid, key, "%s applies %s to a record payload before storing it: the library read differs from the library written (e.g. an angle of -90 comes back as 270)" % (f.short, ", ".join(sorted({h[1] for h in hits}))), b.site(hits[0][0]), key)
+            ctx.violation(rid, key, "%s applies %s to a record payload before storing it: the library read differs from what the stream encodes (e.g. an angle of -90 comes back as 270, a year of 2023 as 123)" % (f.short, ", ".join(sorted({h[1] for h in hits}))), b.site(hits[0][0]), key)
         else:
             ctx.ok(rid, f.short, "payloads stored as decoded")
     ctx.floor(rid, "parser_functions", n_fn, 5)
+    ctx.count(rid + "_payload_helpers", n_help)
 
 
 # ----------------------------------------------------------------------------------------------------------
